@@ -226,12 +226,12 @@ def main():
             {"name": "E2", "path": "mc/choices.py", "serves_properties": ["C12", "C15", "C18"], "kind_free_text": "stateless choice-tree enumerator over environment answers and fault points"},
             {"name": "E3", "path": "mc/genpipe.py", "serves_properties": ["C01", "C02", "C03", "C15", "C16", "C17", "C19"], "kind_free_text": "bounded program (XML spec) x input enumerator with a reference interpreter"},
             {"name": "E4", "path": "mc/charsweep.py", "serves_properties": ["C04", "C05", "C06", "C07", "C08", "C09", "C10", "C11"], "kind_free_text": "exhaustive input-domain sweeps against closed-form references: the shared character alphabet (every code point, base x combining mark) lives in mc/charsweep.py, the numeric / byte-string sweeps in the property modules (mc/props/c07.py, c08.py, c10.py, c11.py, byte sweep in c05.py), sharded by mc/par.py"},
-            {"name": "E6", "path": "mc/threads.py", "serves_properties": ["C05", "C07", "C08", "C09", "C10", "C11", "C13", "C14"], "kind_free_text": "stateless exploration of thread schedules on the real code: two real threads under a baton, scheduling points at every line event of repository code (sys.settrace), iterative context bounding (preemption bound 1-3), cooperative locks, modules reloaded per execution; cases in mc/threadcases.py"},
+            {"name": "E6", "path": "mc/threads.py", "serves_properties": ["C05", "C07", "C08", "C09", "C10", "C11", "C12", "C13", "C14", "C15"], "kind_free_text": "stateless exploration of thread schedules on the real code: two real threads under a baton, scheduling points at every line event of repository code (sys.settrace), iterative context bounding (preemption bound 1-3), cooperative locks, modules reloaded per execution; cases in mc/threadcases.py"},
             {"name": "E5", "path": "mc/tlc.py", "serves_properties": ["C05", "C13"], "kind_free_text": "TLC on TLA+ models + conformance replay of every dumped edge on the real classes"},
         ],
         "checks": checks,
         "not_applicable": na,
-        "notes": "All checks: cwd /verif, ./check <ID> --tier quick|thorough; VERIF_REPO overrides the repository path (default /repo); VERIF_SEED rotates extra enumerated windows only. Every check also repeats its quick tier in an interpreter started with -OO (assert statements and docstrings removed), concurrently with the main pass; violations seen only there are reported as VIOLATION lines of their own and their replay files re-execute under -OO. The checks of C05, C07-C11, C13 and C14 also explore thread schedules (E6). Exit 2 (HARNESS-ERROR) is never a verdict.",
+        "notes": "All checks: cwd /verif, ./check <ID> --tier quick|thorough; VERIF_REPO overrides the repository path (default /repo); VERIF_SEED rotates extra enumerated windows only. Every check also repeats its quick tier in an interpreter started with -OO (assert statements and docstrings removed), concurrently with the main pass; violations seen only there are reported as VIOLATION lines of their own and their replay files re-execute under -OO. The checks of C05 and C07-C15 also explore thread schedules (E6). Exit 2 (HARNESS-ERROR) is never a verdict.",
     }
     with open(os.path.join(ROOT, "MANIFEST.json"), "w") as f:
         json.dump(manifest, f, indent=1)
